@@ -21,7 +21,8 @@ BORROWED = {
             "C05": {"C05-D1e payload forms": "C03-r4-2", "C05-D2 dependency embedded = dependency created alone": "C03-r2-1"},
             "C18": {"C18-D1 no nondeterministic source on the deterministic commands": "C03-r2-1"}},
     "C04": {"C09": {"C09-D1e skip dominates signing": "C04-r2-2", "C09-D4 recursive wiring": "C04-r4-1",
-                    "C09-D4b own key, bottom-up, same name": "C04-r2-3, C04-r3-2"},
+                    "C09-D4b own key, bottom-up, same name": "C04-r2-3, C04-r3-2",
+                    "C09-D3b checked key = signing key": "C04-r5-2"},
             "C18": {"C18-D2 no shared state written after import": "C04-r2-2"}},
     "C05": {"C01": {"C01-D5 hash table": "C05-r2-2"},
             "C18": {"C18-D1b no memoisation": "C05-r2-1"}},
